@@ -38,6 +38,7 @@ const (
 	tyMapSI    = 105
 	tyArr2     = 106
 	tyMyF64    = 107
+	tyR        = 108
 )
 
 type (
@@ -49,6 +50,11 @@ type (
 		B string
 	}
 	Q struct{ Xs []int }
+	// R is comparable as a type but not always as a value (Data may hold a slice)
+	R struct {
+		Name string
+		Data any
+	}
 )
 
 // gval is a Go value of the pool together with its Coq rv term.
@@ -118,6 +124,7 @@ func valuePool() []gval {
 		rComp(tyIntSlice, false, []int{1, 2}), rComp(tyIntSlice, false, []int{1, 3}),
 		rComp(tyMapSI, false, map[string]int{"a": 1}), rComp(tyMapSI, false, map[string]int{"a": 2}),
 		rComp(tyArr2, true, [2]int{1, 2}), rComp(tyArr2, true, [2]int{2, 1}),
+		rComp(tyR, true, R{"a", 1}), rComp(tyR, false, R{"a", []int{1}}), rComp(tyR, false, R{"a", []int{2}}),
 	}
 }
 
@@ -177,7 +184,7 @@ var keyPool = func() []keyEntry {
 		mkKey[MyInt]("myint", tyMyInt), mkKey[MyStr]("mystr", tyMyStr), mkKey[MyF64]("myf", tyMyF64),
 		mkKey[P]("p", tyP), mkKey[Q]("q", tyQ), mkKey[[]int]("ints", tyIntSlice),
 		mkKey[map[string]int]("msi", tyMapSI), mkKey[[2]int]("arr", tyArr2),
-		mkKey[int]("s", tyInt), mkKey[string]("n", tyString),
+		mkKey[int]("s", tyInt), mkKey[string]("n", tyString), mkKey[R]("r", tyR),
 	}
 	for i := range ks {
 		ks[i].ID = i
